@@ -178,7 +178,7 @@ def forestAnswer (a : Arena) (en : Env) (s : Nat) (pt : Walk.PT) (m : ParseRes) 
   -- the abstract syntax the real forest denotes (Xsel/Lower.lean) against the model parser's reading
   let low := match m with
     | .ok e =>
-      (match Walk.lower pt with
+      (match Walk.L2.lower pt with
        | some e' => if Expr.same e' e then "1" else "0"
        | none => "0")
     | _ => "-"
